@@ -123,6 +123,16 @@ func (f *Friendly) GetMove(
 	}
 	if f.fpa != nil {
 		if p.MoveNumber() > 0 {
+			// The rule takes its notes on the opening (where
+			// the first stones went) from the moves it is
+			// shown. Show it the whole record, oldest move
+			// first, so that the notes are those of this
+			// game also after a resumed game or an undo.
+			// The earlier moves were judged when they were
+			// new; only the newest one is judged here.
+			for i := 0; i+1 < len(f.g.Moves); i++ {
+				f.fpa.LegalMove(f.g.Positions[i], f.g.Moves[i])
+			}
 			prevP := f.g.Positions[len(f.g.Positions)-2]
 			prevM := f.g.Moves[len(f.g.Moves)-1]
 			if err := f.fpa.LegalMove(prevP, prevM); err != nil {
